@@ -70,4 +70,16 @@ theorem steps_frame {RA RB : List Nat} {h h' : Heap} (hs : Steps RA RB h h')
     obtain ⟨i1, i2, i3⟩ := ih (disjoint_write hd hc hn)
     exact ⟨fun o => (i1 o).trans (f1 o), fun o ho => (i2 o ((f1 o).mpr ho)).trans (f2 o ho), i3⟩
 
+/-- **What is not written is not changed**: after any sequence of mutations that avoid the objects reachable from `R`
+    (for `R` = the classes and module globals: a document that writes only into its own objects), exactly the same
+    objects are reachable from `R` and each holds exactly the same references. -/
+theorem avoid_frame {R : List Nat} {h h' : Heap} (hs : WritesAvoid R h h') :
+    (∀ o, Reach h' R o ↔ Reach h R o) ∧ (∀ o, Reach h R o → h' o = h o) := by
+  induction hs with
+  | done h => exact ⟨fun _ => Iff.rfl, fun _ _ => rfl⟩
+  | write c new hc _ ih =>
+    obtain ⟨f1, f2⟩ := write_frame (new := new) hc
+    obtain ⟨i1, i2⟩ := ih
+    exact ⟨fun o => (i1 o).trans (f1 o), fun o ho => (i2 o ((f1 o).mpr ho)).trans (f2 o ho)⟩
+
 end PlasVerif.Proofs.Holders
